@@ -88,10 +88,16 @@ End SchedFacts.
 Ltac rw_eqs := repeat match goal with
   | H : ?x = ?v |- context [?x] => rewrite H
   end.
-Ltac red_proj := repeat (progress (simpl; rw_eqs)).
-Ltac case_step := repeat (match goal with
-   | |- context [if ?b then _ else _] => destruct b eqn:?
-   | |- context [match ?x with _ => _ end] => destruct x eqn:?
+(* per-model projection rewriting (frame lemmas), set with `Ltac proj_hook ::= ...` *)
+Ltac proj_hook := idtac.
+Ltac red_proj := repeat (progress (simpl; rw_eqs; proj_hook)).
+Ltac no_match x := lazymatch x with
+  | context [match _ with _ => _ end] => fail
+  | _ => idtac
+  end.
+(* case analysis on the scrutinees (innermost first) of every if/match of the goal *)
+Ltac case_step := red_proj; repeat (match goal with
+   | |- context [match ?x with _ => _ end] => no_match x; destruct x eqn:?
    end; red_proj).
 Ltac rw_hyps := repeat match goal with
   | H : ?x = ?v, H' : context [?x] |- _ => lazymatch H' with H => fail | _ => rewrite H in H' end
